@@ -18,7 +18,16 @@ def run_shards(binary, d, driver_args, ncases, module, cfg, prefix, nshards=None
 
         def job(k=k, lo=lo, n=n):
             tp = os.path.join(d, "%s-%d.ndjson" % (prefix, k))
-            vlib.run_driver(binary, list(driver_args) + ["-n", n, "-first", lo, "-out", tp], timeout=timeout)
+            p = vlib.run_driver(binary, list(driver_args) + ["-n", n, "-first", lo, "-out", tp], timeout=timeout, check=False)
+            if p.returncode != 0:
+                crash = real_crash(p.stderr or "")
+                if crash is None or vlib.CURRENT_RUN is None:
+                    raise vlib.Inconclusive("driver %s exited %d:\n%s" % (" ".join(map(str, driver_args[:3])), p.returncode, (p.stderr or "")[-4000:]))
+                # the code under test killed the process on an input of the property's quantifier: that is behaviour
+                # of the real code (the lines written before the crash are still validated)
+                vlib.CURRENT_RUN.violation({"crash": True, "site": crash["site"]},
+                                           {"driver": list(map(str, driver_args)), "first": lo, "n": n, "panic": crash["panic"], "stack": crash["stack"], "seed": vlib.CURRENT_RUN.seed},
+                                           "the real code crashed the process (%s at %s) while the driver '%s' ran cases %d..%d" % (crash["panic"][:160], crash["site"], " ".join(map(str, driver_args[:2])), lo, lo + n - 1))
             cnt = vlib.count_lines(tp)
             if cnt == 0:
                 return tp, 0, None
@@ -30,6 +39,24 @@ def run_shards(binary, d, driver_args, ncases, module, cfg, prefix, nshards=None
             return tp, cnt, r
         jobs.append(job)
     return vlib.parallel(jobs, nproc=min(vlib.NCPU, 12))
+
+
+def real_crash(stderr):
+    """A Go panic / fatal error whose first non-runtime frame lies in the repository under test (not in the harness)."""
+    i = max(stderr.find("panic:"), stderr.find("fatal error:"))
+    if i < 0:
+        return None
+    tail = stderr[i:]
+    frames = [ln.strip() for ln in tail.splitlines() if ".go:" in ln and ln.startswith(("\t", " "))]
+    for fr in frames:
+        path = fr.split(" ")[0]
+        if "/runtime/" in path or "/src/runtime" in path or "/src/sync/" in path or "/src/internal/" in path:
+            continue
+        if path.startswith(vlib.REPO + "/") or "github.com/itchio/wharf" in path:
+            return {"panic": tail.splitlines()[0][:300], "site": path.replace(vlib.REPO + "/", ""), "stack": tail[:2500]}
+        if "/verif/harness/" in path or "vdriver" in path:
+            return None
+    return None
 
 
 def drive_marked(run, binary, d, base_args, first, n, tag, what, shape_of_crash, max_crashes=40, timeout=1200):
